@@ -45,6 +45,7 @@ To use this backend you must activate the `slurm` backend.
 
 import logging
 import os.path
+import re
 import shlex
 from collections import defaultdict
 
@@ -52,6 +53,7 @@ import attrs
 
 from ..utils import ensure_trailing_newline
 from .base import BackendStatus, TrackingBackend
+from .exceptions import BackendError
 from .utils import call, has_exe
 
 logger = logging.getLogger(__name__)
@@ -202,7 +204,12 @@ class SlurmOps:
         args = ["--parsable"]
         if dependencies:
             args.append("--dependency=afterok:{}".format(":".join(dependencies)))
-        return call("sbatch", *args, input=script).strip()
+        job_id = call("sbatch", *args, input=script).strip()
+        # With --parsable sbatch prints "<jobid>" or "<jobid>;<cluster>". Anything
+        # else means that no job id is known: do not track it as if it were one.
+        if re.fullmatch(r"\d+(;\S+)?", job_id) is None:
+            raise BackendError(f"Could not parse job id from sbatch output: {job_id!r}")
+        return job_id
 
     def get_job_states_from_squeue(self, tracked_jobs):
         logger.debug("Loading job states from squeue")
